@@ -305,3 +305,52 @@ func parseValue(txt string) (uint64, error) {
 	}
 	return 0, fmt.Errorf("unknown value token %q", tok)
 }
+
+// OneShot runs a stand-alone script (ending in one check-sat) in a fresh
+// process of the given solver and returns the verdict of the last check-sat.
+func OneShot(kind Kind, script string, timeoutMS int) (Result, error) {
+	var cmd *exec.Cmd
+	secs := timeoutMS/1000 + 1
+	switch kind {
+	case Z3:
+		cmd = exec.Command("z3", "-in", "-smt2", fmt.Sprintf("-T:%d", secs))
+	case Z3New:
+		cmd = exec.Command("z3-new", "-in", "-smt2", fmt.Sprintf("-T:%d", secs))
+	case CVC5:
+		cmd = exec.Command("cvc5", "--lang=smt2", fmt.Sprintf("--tlimit=%d", timeoutMS), "--fp-exp")
+		script = "(set-logic ALL)\n" + script
+	default:
+		return Unknown, fmt.Errorf("unknown solver %q", kind)
+	}
+	cmd.Stdin = strings.NewReader(script)
+	cmd.SysProcAttr = &syscall.SysProcAttr{Pdeathsig: syscall.SIGKILL}
+	done := make(chan struct{})
+	var out []byte
+	var err error
+	go func() { out, err = cmd.CombinedOutput(); close(done) }()
+	select {
+	case <-done:
+	case <-time.After(time.Duration(timeoutMS)*time.Millisecond + 15*time.Second):
+		if cmd.Process != nil {
+			cmd.Process.Kill()
+		}
+		<-done
+		return Unknown, fmt.Errorf("%s: hard timeout", kind)
+	}
+	res := Unknown
+	for _, l := range strings.Split(string(out), "\n") {
+		l = strings.TrimSpace(l)
+		switch {
+		case strings.HasPrefix(l, "(error"):
+			return Unknown, fmt.Errorf("%s: %s", kind, l)
+		case l == "sat":
+			res = Sat
+		case l == "unsat":
+			res = Unsat
+		case l == "unknown" || l == "timeout":
+			res = Unknown
+		}
+	}
+	_ = err
+	return res, nil
+}
